@@ -146,7 +146,9 @@ FxSig ==
    outStr     |-> Sig("coll", <<>>, FALSE, "bad"),
    outSlice   |-> Sig("coll", <<>>, FALSE, "bad"),
    outThree   |-> Sig("coll", <<>>, FALSE, "bad"),
-   outFakeErr |-> Sig("coll", <<>>, FALSE, "bad")]
+   outFakeErr |-> Sig("coll", <<>>, FALSE, "bad"),
+   outErrPtr  |-> Sig("coll", <<>>, FALSE, "bad"),      \* second result a concrete type that implements error
+   outErrWide |-> Sig("coll", <<>>, FALSE, "bad")]      \* second result a wider interface that embeds error
 
 CKinds  == {"well", "badIn", "badOut", "variadic", "zero", "typed"}
 CAbbrev == [well |-> "w", badIn |-> "i", badOut |-> "o", variadic |-> "r", zero |-> "z", typed |-> "t"]
@@ -156,7 +158,7 @@ KindFx ==
    typed    |-> <<"typedSI", "typedH">>,
    variadic |-> <<"var1", "var2">>,
    badIn    |-> <<"inInt", "inNone", "notFunc", "inSlice", "nilFn">>,
-   badOut   |-> <<"outOne", "outStr", "outSlice", "outThree", "outFakeErr">>]
+   badOut   |-> <<"outOne", "outStr", "outSlice", "outThree", "outFakeErr", "outErrPtr", "outErrWide">>]
 KindName ==
   [well |-> "cfWell", zero |-> "cfZero", typed |-> "cfTyped", variadic |-> "cfVar",
    badIn |-> "cfBadIn", badOut |-> "cfBadOut"]
